@@ -160,6 +160,10 @@ func (w *World) verifyFunc(con *Contract) (res *FuncResult) {
 			if w.otherProp(en.Prop) {
 				continue
 			}
+			if en.Assumed {
+				e.note("assumed postcondition of " + con.Name + " (exported to callers, not checked against the body): " + en.Src)
+				continue
+			}
 			t := in.specBool(en.Expr, renv)
 			o := &Obligation{Name: fmt.Sprintf("%s#ensures:%d@ret%d", e.fname, i, ri), Kind: "ensures", Pos: rp.pos, Step: rp.step(e), Reach: rp.st.reach, Goal: t, Top: en.Top, Blk: rp.blk, Prop: en.Prop}
 			e.obls = append(e.obls, o)
@@ -388,6 +392,9 @@ func unmatchedClause(w *World, fn *ssa.Function, con *Contract) string {
 		return ""
 	}
 	for _, ca := range con.Asserts {
+		if ca.Forbid {
+			continue
+		}
 		if m := check("assert", ca.Callee, ca.Ordinal, ca.Clause.Prop); m != "" {
 			return m
 		}
